@@ -476,11 +476,12 @@ handle_arglist(spif_int32_t n, spif_charptr_t val_ptr, unsigned char hasequal,
     D_OPTIONS(("Argument list option detected\n"));
     if (hasequal) {
         /* There's an equals sign, so just parse the rest of this option into words. */
-        tmp = (spif_charptr_t *) MALLOC(sizeof(spif_charptr_t) * (spiftool_num_words(val_ptr) + 1));
+        unsigned long cnt = spiftool_num_words(val_ptr);
 
-        for (k = 0; val_ptr; k++) {
-            tmp[k] = spiftool_get_word(1, val_ptr);
-            val_ptr = spiftool_get_pword(2, val_ptr);
+        tmp = (spif_charptr_t *) MALLOC(sizeof(spif_charptr_t) * (cnt + 1));
+
+        for (k = 0; k < cnt; k++) {
+            tmp[k] = spiftool_get_word(k + 1, val_ptr);
             D_OPTIONS(("tmp[%d] == %s\n", k, tmp[k]));
         }
         tmp[k] = (spif_charptr_t) NULL;
